@@ -227,6 +227,30 @@ def check(g, case):
                 if diffs:
                     bad("reimport_differs", diffs[0]["expected"], diffs[0]["observed"], exporter="metapype_io",
                         field=diffs[0]["field"], clean=clean)
+    # ---------------- the optional arguments: a document written at another indentation level is the same document --------
+    if len(case.get("slots", [])) <= 1:
+        for label, call in (("level=1", lambda t_: metapype_io.to_xml(t_, level=1)), ("parent=None, level=2", lambda t_: metapype_io.to_xml(t_, None, 2)),
+                            ("eml level=0 explicit", lambda t_: export.to_xml(t_, 0))):
+            core.reset_store()
+            if label.startswith("eml"):
+                if not eml_ok(eml_variant(g)):
+                    continue
+                t = gtree.build(eml_variant(g))
+            else:
+                t = gtree.build(g)
+            try:
+                xml = call(t)
+                el = xmlinfo.parse(xml)
+                etree.fromstring(xml.encode("utf-8"))
+            except Exception as e:  # noqa
+                bad("not_well_formed", "well-formed XML with " + label, repr(e)[:300], exporter="metapype_io" if "eml" not in label else "export",
+                    parser="both", arguments=label)
+                continue
+            if not label.startswith("eml"):
+                diffs = []
+                compare_infoset(t, el, (), diffs)
+                if diffs:
+                    bad("export_differs", diffs[0]["expected"], diffs[0]["observed"], exporter="metapype_io", field=diffs[0]["field"], arguments=label)
     # ---------------- a subtree is a tree: export of an inner node / of the copy of an inner node ----------------
     if g["children"] and len(case.get("slots", [])) <= 1:
         for how in ("inner-node", "copy-of-inner-node"):
@@ -254,6 +278,9 @@ def check(g, case):
             g3 = gtree.clone(ge)
             if rootname:
                 g3["name"] = rootname
+                # (attribute names that also occur somewhere in the boiler-plate the exporter writes on an eml root)
+                g3["attrs"] = g3["attrs"] + [[k_, "v"] for k_ in ("a", "e", "schema", "xsd", "xsi", "eml", "org", "packageId", "system")
+                                             if k_ not in dict(map(tuple, g3["attrs"]))]
             core.reset_store()
             t = gtree.build(g3)
             ref = gtree.build(g3)       # the exporter is handed a private copy; `ref` is the untouched twin
@@ -310,9 +337,22 @@ def eml_compare(node, el, path, out):
         eml_compare(c, e, path + (i,), out)
 
 
+def failing_export_first():
+    """an export that fails part-way (a tail that is not text, deep in a tree with namespaces) must not colour later exports"""
+    core.reset_store()
+    t = gtree.build(decorate(gtree.shapes_upto(4)[-1], 1))
+    gtree.preorder(t)[-1].tail = 5
+    for fn in (metapype_io.to_xml, export.to_xml):
+        try:
+            fn(t)
+        except Exception:  # noqa
+            pass
+
+
 def work(item):
     g, n, mode, lo, hi = item
     acc = core.Acc()
+    failing_export_first()
     sl = slots(g)
     cnt = 0
 
@@ -367,6 +407,7 @@ def scale_trees():
 def scale_work(item):
     label, g = item
     acc = core.Acc()
+    failing_export_first()
     acc.add_problems(check(g, {"scale": label, "tree": None, "slots": []}))
     acc.count("trees")
     acc.count("scale_trees")
